@@ -31,15 +31,47 @@ const cbRecv = "(internal/counter.counterStateBits)."
 
 // stateWriters: instructions that may change the local state copy `a`.
 // update(&a, new) changes it only on its success edge.
-func isUpdateOn(in ssa.Instruction, a *ssa.Alloc) *ssa.Call {
+func isUpdateOn(in ssa.Instruction, a ssa.Value) *ssa.Call {
 	cl, ok := in.(*ssa.Call)
 	if !ok || calleeName(&cl.Call) != csRecv+"update" {
 		return nil
 	}
-	if cl.Call.Args[1] == ssa.Value(a) {
+	if stateAddrs(a)[cl.Call.Args[1]] {
 		return cl
 	}
 	return nil
+}
+
+// stateAddrs: the addresses that denote the local state copy a — the alloc itself, or, for a
+// variable declared in a for clause (one copy per iteration), the phi of its per-iteration allocs.
+func stateAddrs(a ssa.Value) map[ssa.Value]bool {
+	set := map[ssa.Value]bool{}
+	var add func(v ssa.Value)
+	add = func(v ssa.Value) {
+		if set[v] {
+			return
+		}
+		set[v] = true
+		if phi, ok := v.(*ssa.Phi); ok {
+			for _, e := range phi.Edges {
+				add(e)
+			}
+		}
+	}
+	add(a)
+	return set
+}
+
+// isStateAddr: v is an Alloc, or a phi of Allocs.
+func isStateAddr(v ssa.Value) bool {
+	for x := range stateAddrs(v) {
+		switch x.(type) {
+		case *ssa.Alloc, *ssa.Phi:
+		default:
+			return false
+		}
+	}
+	return v != nil
 }
 
 // feasibleSuccs: successors of b when it was entered from pred; a block that branches
@@ -75,7 +107,8 @@ func feasibleSuccs(pred, b *ssa.BasicBlock) []*ssa.BasicBlock {
 // sameVersion: on every (phi-feasible) path from load l1 to instruction `at` that does not
 // re-execute l1, the local copy `a` is not written (a successful update counts as a write; a
 // failed one does not).
-func sameVersion(a *ssa.Alloc, l1 ssa.Instruction, at ssa.Instruction) bool {
+func sameVersion(a ssa.Value, l1 ssa.Instruction, at ssa.Instruction) bool {
+	addrs := stateAddrs(a)
 	type st struct {
 		b     *ssa.BasicBlock
 		i     int
@@ -102,7 +135,7 @@ func sameVersion(a *ssa.Alloc, l1 ssa.Instruction, at ssa.Instruction) bool {
 				stop = true
 				break
 			}
-			if stt, ok := in.(*ssa.Store); ok && stt.Addr == ssa.Value(a) {
+			if stt, ok := in.(*ssa.Store); ok && addrs[stt.Addr] {
 				dirty = true
 				continue
 			}
@@ -112,7 +145,7 @@ func sameVersion(a *ssa.Alloc, l1 ssa.Instruction, at ssa.Instruction) bool {
 			}
 			if cc := callOf(in); cc != nil {
 				for _, arg := range cc.Args {
-					if arg == ssa.Value(a) {
+					if addrs[arg] {
 						dirty = true
 					}
 				}
@@ -157,12 +190,12 @@ func containsAfter(b *ssa.BasicBlock, in ssa.Instruction) bool { return false }
 
 // stateFormula: conjunction of the accessor facts at `at` that speak about the same
 // version of local copy a as load `root`.
-func stateFormula(a *ssa.Alloc, root ssa.Instruction, at ssa.Instruction, extraNamer func(ssa.Value) (string, bool)) BExpr {
+func stateFormula(a ssa.Value, root ssa.Instruction, at ssa.Instruction, extraNamer func(ssa.Value) (string, bool)) BExpr {
 	fb := newFormulaBuilder()
 	fb.namer = func(v ssa.Value) (string, bool) {
 		if cl, ok := v.(*ssa.Call); ok && strings.HasPrefix(calleeName(&cl.Call), cbRecv) {
 			acc := strings.TrimPrefix(calleeName(&cl.Call), cbRecv)
-			if ld, ok := cl.Call.Args[0].(*ssa.UnOp); ok && ld.X == ssa.Value(a) {
+			if ld, ok := cl.Call.Args[0].(*ssa.UnOp); ok && ld.X == a {
 				if ld == root || sameVersion(a, ld, root) || sameVersion(a, ld, at) {
 					return acc, true
 				}
@@ -313,9 +346,9 @@ func runC03(c *Ctx) {
 	for _, fn := range []*ssa.Function{add, relR, relL, inval, refresh} {
 		for _, cs := range callsIn(fn, csRecv+"update") {
 			u := cs.(*ssa.Call)
-			a, _ := u.Call.Args[1].(*ssa.Alloc)
+			a := u.Call.Args[1]
 			root, muts := rootLoad(u.Call.Args[2])
-			if a == nil || root == nil || root.X != ssa.Value(a) {
+			if !isStateAddr(a) || root == nil || root.X != a {
 				r.Check("C03.lock-preconditions", fname(fn)+"/update operand", m.Pos(u.Pos()), false, "update must install a mutation of the local state copy it compares against; got "+describe(u.Call.Args[2]))
 				continue
 			}
@@ -393,7 +426,7 @@ func runC03(c *Ctx) {
 						if cl, isC := in.(*ssa.Call); isC && calleeName(&cl.Call) == "(*internal/counter.Counter).add" {
 							// the amount: extra() of a load of the same version as root
 							if ec, isE := strip(cl.Call.Args[1]).(*ssa.Call); isE && calleeName(&ec.Call) == cbRecv+"extra" {
-								if ld, isL := ec.Call.Args[0].(*ssa.UnOp); isL && ld.X == ssa.Value(a) && (ld == root || sameVersion(a, ld, root)) {
+								if ld, isL := ec.Call.Args[0].(*ssa.UnOp); isL && ld.X == a && (ld == root || sameVersion(a, ld, root)) {
 									ok = true
 								}
 							}
